@@ -1181,3 +1181,48 @@ pub fn mut_param_untouched_safe(a: Vec<u8>, mut b: Vec<u8>) -> u8 {
     b.clear();
     a[0]
 }
+
+// the map step fused into the bit loop: still at most one push per set bit
+pub fn low_bit_loop_fused_safe(mut x: u16) -> u32 {
+    let mut v: Vec<u32> = Vec::new();
+    while x != 0 {
+        v.push(x.trailing_zeros() * 3 + 1);
+        x &= x - 1;
+    }
+    // at most 16 elements
+    [0u32; 17][v.len()]
+}
+pub fn low_bit_loop_fused_two_pushes_panics(mut x: u16) -> u32 {
+    let mut v: Vec<u32> = Vec::new();
+    while x != 0 {
+        v.push(x.trailing_zeros() * 3 + 1);
+        v.push(0);
+        x &= x - 1;
+    }
+    [0u32; 17][v.len()]
+}
+
+// a `mut` parameter that is reassigned after the guard
+pub fn mut_param_reassigned_panics(mut i: usize, a: &[u8; 4]) -> u8 {
+    if i >= 4 {
+        return 0;
+    }
+    i = i + 4;
+    a[i]
+}
+pub fn mut_param_reassigned_in_branch_panics(mut i: usize, a: &[u8; 4], f: bool) -> u8 {
+    if i >= 4 {
+        return 0;
+    }
+    if f {
+        i += 1;
+    }
+    a[i]
+}
+pub fn mut_param_reassigned_safe(mut i: usize, a: &[u8; 8]) -> u8 {
+    if i >= 4 {
+        return 0;
+    }
+    i = i + 4;
+    a[i]
+}
